@@ -71,11 +71,15 @@ Definition ok_result (ec : ecfg) (c : cfg) (x : expectation) (p : packet) (res :
    first Deny rule reached.  Felix's static chains clear all Calico marks when a packet enters. *)
 Definition entry_mark_ok (c : cfg) (p : packet) : bool := mark_clear (pk_mark p) (c_drop c).
 
-(* A Pass rule inside a PROFILE is outside the proved domain: the profile chains are entered without the pass
-   mark being cleared, so a profile's Pass rule can fire on the mark left by a tier (see c09_profile_pass_refuted). *)
-Definition is_pass_rule (r : rule) : bool := match r_action r with Pass => true | _ => false end.
+(* On the pinned tree a Pass rule inside a PROFILE is outside the proved domain: the profile chains are entered
+   without the pass mark being cleared, so the "return if pass mark set" half of a profile's Pass rule fires on the
+   mark left by the last tier or by an earlier profile (c09_profile_pass_refuted_unfixed).
+   With fixes/C09-profile-pass-mark.patch (ec_profile_fix) there is no restriction. *)
+Definition is_pass_rule (r : rule) : bool := is_pass_action (r_action r).
 Definition profiles_pass_free (profiles : list mprofile) : bool :=
-  forallb (fun pf => forallb (fun r => negb (is_pass_rule r)) (pf_rules pf)) profiles.
+  forallb (fun pf => negb (has_pass_rule (pf_rules pf))) profiles.
+Definition profiles_in_domain (ec : ecfg) (profiles : list mprofile) : bool :=
+  ec_profile_fix ec || profiles_pass_free profiles.
 
 (* ------------------------------------------------------------------ correspondence case *)
 Record case := {
@@ -106,6 +110,39 @@ Definition check_case (k : case) : bool * bool :=
       negb (entry_mark_ok (k_cfg k) p && ipver_eqb (pk_ver p) (k_ver k))
       || ok_result (k_ecfg k) (k_cfg k) (expected (k_ecfg k) (e_sets e) (k_tiers k) (k_profiles k) p) p
            (run_chain case_fuel (k_impl k) e (k_name k) p)) (k_packets k) ).
+
+(* ------------------------------------------------------------------ known-finding classification *)
+(* A failing case counts as the known defect "profile-pass-rule-stale-pass-mark" only if ALL of:
+   - the tree was probed as the unfixed variant (ec_profile_fix = false in the case);
+   - the unfixed MODEL equals the implementation's chains (so it predicts the implementation exactly);
+   - some profile of the endpoint holds a Pass rule;
+   - every packet on which the oracle fails is one that, by the reference, no tier decides (it reaches the
+     profiles), and on which the chains of the FIXED model give the result the oracle demands.
+   Anything else stays a violation. *)
+Definition set_profile_fix (ec : ecfg) (b : bool) : ecfg :=
+  {| ec_type := ec_type ec; ec_admin_up := ec_admin_up ec; ec_failsafe := ec_failsafe ec; ec_allow := ec_allow ec;
+     ec_ct_invalid := ec_ct_invalid ec; ec_block_vxlan := ec_block_vxlan ec; ec_block_ipip := ec_block_ipip ec;
+     ec_profile_fix := b |}.
+
+Definition reaches_profiles (s : ipsets) (tiers : list mtier) (p : packet) : bool :=
+  forallb (fun t => match tier_verdict s (to_tier t) p with VAllow | VDeny => false | _ => true end) tiers.
+
+(* second component is always false so that the evaluation lists every case it is run on *)
+Definition classify_case (k : case) : bool * bool :=
+  let e := case_env k in
+  let ec := k_ecfg k in
+  let fixed := render_endpoint (set_profile_fix ec true) (k_cfg k) (k_ver k) (k_name k) (k_tiers k) (k_profiles k) in
+  ( negb (ec_profile_fix ec)
+    && chains_eqb (render_endpoint ec (k_cfg k) (k_ver k) (k_name k) (k_tiers k) (k_profiles k)) (k_impl k)
+    && negb (profiles_pass_free (k_profiles k))
+    && forallb (fun p =>
+         negb (entry_mark_ok (k_cfg k) p && ipver_eqb (pk_ver p) (k_ver k))
+         || ok_result ec (k_cfg k) (expected ec (e_sets e) (k_tiers k) (k_profiles k) p) p
+              (run_chain case_fuel (k_impl k) e (k_name k) p)
+         || (reaches_profiles (e_sets e) (k_tiers k) p
+             && ok_result ec (k_cfg k) (expected ec (e_sets e) (k_tiers k) (k_profiles k) p) p
+                  (run_chain case_fuel fixed e (k_name k) p))) (k_packets k),
+    false ).
 
 (* ------------------------------------------------------------------ short constructors for the driver *)
 Definition R := Build_rule.
